@@ -918,6 +918,26 @@ def run(tier: str, seed: int) -> int:
                          {"case": cases[b], "implementation": run_fcase(cases[b]), "model_says": shown.get(b)})
         else:
             chk.disagree("format-error-coqc", "case shard failed to evaluate", {"log": log})
+    # ---- pinned witness of F14c (found while proving stmt_site_blamed): Python counts a bare carriage return inside a ~
+    # statement as a line break, the compiler splits on "\n" only, and core.py adds Python's line offset without clamping
+    # it to the statement: the diagnostic names a line past the statement (here past the end of the 4-line source)
+    f14c_src = ":: Start\n~ a = 1" + "\r" * 9 + " b c\nhello\n"
+    try:
+        with C.quiet():
+            from bardic.compiler.compiler import BardCompiler
+            BardCompiler().compile_string(f14c_src)
+        f14c_line = None
+    except SyntaxError as e:
+        _, locs = parse_location(str(e), None)
+        f14c_line = locs[0][1] if locs else None
+    except Exception:  # noqa
+        f14c_line = None
+    chk.notes["f14c_witness_line"] = f14c_line
+    if f14c_line is not None and f14c_line != 2:
+        chk.report("construct:stmt-error-line-outside-statement:lone-cr",
+                   f"a ~ statement on line 2 holding bare carriage returns is diagnosed on line {f14c_line} (the source has 4 lines)",
+                   {"kind": "pinned-witness", "source": f14c_src})
+
     # ---- the index a site passes IS the line the real compiler names: parser model (for which Props/C14.v proves that
     # the index of every located site is the construct's line) against the real message, inside Coq ----
     from . import diag_index_tie
